@@ -103,7 +103,7 @@ def w_db(ctx, rng, i):
 
 
 def w_q(ctx, rng, i):
-    n = int(rng.integers(2, 200))
+    n = core.long_or(rng, i, int(rng.integers(2, 200)))
     x = np.sort(rng.uniform(-10, 10, n) if i % 3 else rng.normal(0, 3, n))
     form = ["array", "list", "scalar"][i % 3]
     ctx.describe(form=form, n=n, lo=float(x[0]), hi=float(x[-1]))
@@ -116,6 +116,9 @@ def w_q(ctx, rng, i):
         ctx.check("Q.relations", np.all(np.diff(q)[sep] < 0) if np.all(np.abs(x) < 8) else True, "Q not strictly decreasing on separated inputs")
         ctx.check("Q.relations", float(U.Q(0)) == 0.5 and float(U.Q(0.0)) == 0.5, "Q(0) != 1/2")
         ctx.check("Q.relations", np.all((q >= 0) & (q <= 1)), "Q outside [0,1]")
+        perm = rng.permutation(n)
+        ctx.check("Q.relations", np.array_equal(np.asarray(U.Q(x[perm]), float), np.asarray(q, float)[perm]) and np.array_equal(np.asarray(U.Q(x[::-1].tolist()), float), np.asarray(q, float)[::-1]),
+                  "Q of a shuffled / reversed array differs from the shuffled / reversed values of Q (not element-wise)")
         # gaus integrates to one; equals the normal pdf
         mu = float(rng.uniform(-5, 5))
         std = float(10 ** rng.uniform(-3, 2))
@@ -212,6 +215,10 @@ def w_str2array(ctx, rng, i):
     shape = (rows, cols) if two_d else (cols,)
     if kind == "int":
         a = rng.integers(-999, 1000, shape)
+        if i % 12 == 0:        # integers that a float64 cannot hold (|v| > 2**53, odd): an int array is inverted exactly, not to 16 digits
+            big = np.array([2 ** 53 + 1, -(2 ** 53 + 1), 2 ** 62 + 1, 123456789012345678, -(2 ** 60 + 7), 2 ** 53 + 3])
+            m = rng.integers(2, size=shape) == 0
+            a = np.where(m, big[rng.integers(big.size, size=shape)], a)
         if np.all((a == 0) | (a == 1)) or True:
             # make sure the text is not a pure 0/1 text: force one entry outside digits {0,1}
             a.flat[int(rng.integers(a.size))] = int(rng.choice([2, -1, 37, -250, 9]))
